@@ -476,9 +476,34 @@ pub enum DeepKind {
 	DeepSiblingThenBadSeparator,
 	/// `[{"a":<deep>,"b":[<deep>,{"c":<deep>` : several completed deep siblings, then end of input
 	SeveralDeepSiblingsUnclosed,
+	// "flat" documents: nesting depth <= 2, one lexical element repeated `depth` times
+	/// `[1<blanks>]`
+	FlatBlanksAfterItem,
+	/// `{"a":1<blanks>}`
+	FlatBlanksAfterEntry,
+	/// blanks in every gap of `[ 1 , { "a" : [ ] , "b" : null } ]`
+	FlatBlanksEverywhere,
+	/// `[1<blanks>x`
+	FlatBlanksThenBad,
+	/// a string of unpaired high-surrogate escapes (accepted under the lenient options only)
+	FlatLoneHighSurrogates,
+	/// a string of lone low-surrogate escapes followed by pairs
+	FlatLowSurrogatesAndPairs,
+	/// a string and a key made of short and unicode escapes
+	FlatEscapes,
+	/// a long raw string, also as a key
+	FlatLongStringAndKey,
+	/// a number with long digit runs in all three parts
+	FlatLongNumber,
+	/// `[0,0,...]`
+	FlatItems,
+	/// `{"a":0,"a":0,...}`
+	FlatDuplicateEntries,
+	/// `[true,false,null,"",[],{},...` never closed
+	FlatItemsUnclosed,
 }
 
-pub const DEEP_KINDS: [DeepKind; 14] = [
+pub const DEEP_KINDS: [DeepKind; 26] = [
 	DeepKind::Arrays,
 	DeepKind::Objects,
 	DeepKind::Mixed,
@@ -493,6 +518,18 @@ pub const DEEP_KINDS: [DeepKind; 14] = [
 	DeepKind::DeepSiblingThenBadKey,
 	DeepKind::DeepSiblingThenBadSeparator,
 	DeepKind::SeveralDeepSiblingsUnclosed,
+	DeepKind::FlatBlanksAfterItem,
+	DeepKind::FlatBlanksAfterEntry,
+	DeepKind::FlatBlanksEverywhere,
+	DeepKind::FlatBlanksThenBad,
+	DeepKind::FlatLoneHighSurrogates,
+	DeepKind::FlatLowSurrogatesAndPairs,
+	DeepKind::FlatEscapes,
+	DeepKind::FlatLongStringAndKey,
+	DeepKind::FlatLongNumber,
+	DeepKind::FlatItems,
+	DeepKind::FlatDuplicateEntries,
+	DeepKind::FlatItemsUnclosed,
 ];
 
 /// A document nested `depth` levels deep.
@@ -572,6 +609,77 @@ pub fn deep_doc(kind: DeepKind, depth: usize) -> Vec<u8> {
 			v.extend_from_slice(b",{\"c\":");
 			rep(&mut v, b"[", d);
 			rep(&mut v, b"]", d);
+		}
+		DeepKind::FlatBlanksAfterItem => {
+			v.extend_from_slice(b"[1");
+			rep(&mut v, b" ", depth);
+			v.extend_from_slice(b"]");
+		}
+		DeepKind::FlatBlanksAfterEntry => {
+			v.extend_from_slice(b"{\"a\":1");
+			rep(&mut v, b"\n\t", depth / 2);
+			v.extend_from_slice(b"}");
+		}
+		DeepKind::FlatBlanksEverywhere => {
+			let n = depth / 12 + 1;
+			for tok in ["[", "1", ",", "{", "\"a\"", ":", "[", "]", ",", "\"b\"", ":", "null", "}", "]"] {
+				rep(&mut v, b" \r", n / 2 + 1);
+				v.extend_from_slice(tok.as_bytes());
+			}
+			rep(&mut v, b"\n", n);
+		}
+		DeepKind::FlatBlanksThenBad => {
+			v.extend_from_slice(b"[1");
+			rep(&mut v, b" ", depth);
+			v.extend_from_slice(b"x");
+		}
+		DeepKind::FlatLoneHighSurrogates => {
+			v.extend_from_slice(b"[\"");
+			rep(&mut v, b"\\ud800", depth);
+			v.extend_from_slice(b"\"]");
+		}
+		DeepKind::FlatLowSurrogatesAndPairs => {
+			v.extend_from_slice(b"{\"");
+			rep(&mut v, b"\\uDC00", depth / 2);
+			rep(&mut v, b"\\uD83D\\uDE00", depth / 2);
+			v.extend_from_slice(b"\":0}");
+		}
+		DeepKind::FlatEscapes => {
+			v.extend_from_slice(b"{\"");
+			rep(&mut v, b"\\n\\u00e9\\\\\\/", depth / 4);
+			v.extend_from_slice(b"\":\"");
+			rep(&mut v, b"\\t\\uD83D\\uDE00\\\"", depth / 4);
+			v.extend_from_slice(b"\"}");
+		}
+		DeepKind::FlatLongStringAndKey => {
+			v.extend_from_slice(b"{\"");
+			rep(&mut v, "k\u{e9}".as_bytes(), depth / 2);
+			v.extend_from_slice(b"\":\"");
+			rep(&mut v, "v\u{1f600}".as_bytes(), depth / 2);
+			v.extend_from_slice(b"\"}");
+		}
+		DeepKind::FlatLongNumber => {
+			v.extend_from_slice(b"[-");
+			rep(&mut v, b"12", depth / 6 + 1);
+			v.extend_from_slice(b".");
+			rep(&mut v, b"05", depth / 6 + 1);
+			v.extend_from_slice(b"E+");
+			rep(&mut v, b"90", depth / 6 + 1);
+			v.extend_from_slice(b"]");
+		}
+		DeepKind::FlatItems => {
+			v.extend_from_slice(b"[0");
+			rep(&mut v, b",0", depth);
+			v.extend_from_slice(b"]");
+		}
+		DeepKind::FlatDuplicateEntries => {
+			v.extend_from_slice(b"{\"a\":0");
+			rep(&mut v, b",\"a\":0", depth);
+			v.extend_from_slice(b"}");
+		}
+		DeepKind::FlatItemsUnclosed => {
+			v.extend_from_slice(b"[");
+			rep(&mut v, b"true,false,null,\"\",[],{},", depth / 6 + 1);
 		}
 	}
 	v
